@@ -1202,3 +1202,70 @@ M('C14','sorted-ascending-nolock','ds/reactive/sorted_set_impl.go','''func (s *s
 ''','''func (s *sortedSet[ElementType, WeightType]) Ascending() (sortedSlice []ElementType) {
 ''','lock/guarded-by sortedSet.sortedElements in ds/reactive.sortedSet.Ascending')
 M('C14','monitor-memory-not-updated','ds/reactive/counter_impl.go','				conditionWasTrue = conditionIsTrue\n','','counter/condition-memory')
+
+# ---------------- C15
+M('C15','event3-no-hook-pretrigger','runtime/event/events.go','''		if hook.preTriggerFunc != nil {
+			hook.preTriggerFunc(arg1, arg2, arg3)
+		}
+''','','sibling/trigger-template runtime/event.Event3.Trigger')
+M('C15','event2-no-hook-limit','runtime/event/events.go','''	e.hooks.ForEach(func(_ uint64, hook *Hook[func(T1, T2)]) bool {
+		if hook.currentTriggerExceedsMaxTriggerCount() {
+			hook.Unhook()
+
+			return true
+		}
+''','''	e.hooks.ForEach(func(_ uint64, hook *Hook[func(T1, T2)]) bool {
+''','sibling/trigger-template runtime/event.Event2.Trigger')
+M('C15','event1-stops-after-exhausted-hook','runtime/event/events.go','''	e.hooks.ForEach(func(_ uint64, hook *Hook[func(T1)]) bool {
+		if hook.currentTriggerExceedsMaxTriggerCount() {
+			hook.Unhook()
+
+			return true
+		}''','''	e.hooks.ForEach(func(_ uint64, hook *Hook[func(T1)]) bool {
+		if hook.currentTriggerExceedsMaxTriggerCount() {
+			hook.Unhook()
+
+			return false
+		}''','sibling/trigger-template runtime/event.Event1.Trigger')
+M('C15','count-load-then-add','runtime/event/options.go','return t.triggerCount.Add(1) > t.maxTriggerCount && t.maxTriggerCount != 0','exceeded := t.maxTriggerCount != 0 && t.triggerCount.Load() >= t.maxTriggerCount\n\tt.triggerCount.Add(1)\n\n\treturn exceeded','atomic/rmw-decision')
+M('C15','linkto-no-unhook','runtime/event/event.go','''	if e.link != nil {
+		e.link.Unhook()
+	}
+''','','link/unhook-before-hook')
+M('C15','linkto-nolock','runtime/event/event.go','''	e.linkMutex.Lock()
+	defer e.linkMutex.Unlock()
+''','','lock/guarded-by event.link')
+M('C15','promise-trigger-no-swap','runtime/promise/event.go','''		e.callbacks = nil
+
+		return callbacks.Values()
+	}() {
+		callback()''','''		return callbacks.Values()
+	}() {
+		callback()''','promise/swap-and-call-outside runtime/promise.Event.Trigger')
+M('C15','promise1-value-outside','runtime/promise/event.go','''		e.callbacks = nil
+		e.value = &arg
+
+		return callbacks.Values()
+	}() {
+		callback(arg)
+	}
+''','''		e.callbacks = nil
+
+		return callbacks.Values()
+	}() {
+		callback(arg)
+	}
+	e.value = &arg
+''','promise/swap-and-call-outside runtime/promise.Event1.Trigger')
+M('C15','promise-ontrigger-no-inline','runtime/promise/event.go','''	unsubscribe, subscribed := registerCallback()
+	if !subscribed {
+		callback()
+	}''','''	unsubscribe, subscribed := registerCallback()
+	_ = subscribed''','promise/register-or-call-inline runtime/promise.Event.OnTrigger')
+M('C15','notifier-deregister-by-value','runtime/valuenotifier/listener.go','if !exists || valueListeners != registeredListener {','if !exists {','ident/unregister-own-entry runtime/valuenotifier.Notifier.removeListener')
+M('C15','notifier-notify-keeps-entry','runtime/valuenotifier/listener.go','''	close(valueListener.channel)
+
+	v.listeners.Delete(value)
+}''','''	close(valueListener.channel)
+}''','notifier/close-with-delete runtime/valuenotifier.Notifier.Notify')
+M('C15','unhook-wrong-id','runtime/event/hook.go','h.event.hooks.Delete(h.id)','h.event.hooks.Delete(h.id - 1)','ident/unique-hook-id runtime/event.Hook.Unhook')
